@@ -248,3 +248,33 @@ def binding_forms_against_symtable(run):
                                 check_module(text, chain, reads, binds, headers, path)
         run.case = None
     core.explore(lambda: None, lambda p, out: go(p))
+
+
+PEP695 = [
+    ('function-type-parameter-read-in-the-body', 'x = 0\ndef tp[x](a):\n    return x\n', 3),
+    ('function-type-parameter-read-in-an-annotation', 'x = 0\ndef tp[x](a: x):\n    return a\n', 2),
+    ('class-type-parameter-read-in-a-method', 'x = 0\nclass G[x]:\n    def m(self):\n        return x\n', 4),
+    ('type-alias-parameter', 'x = 0\ntype Al[x] = list[x]\n', 2),
+]
+
+
+@harness(['C05'], 'supp.nast.extract_scope + Flow.names_at [PEP 695 type parameters]', bounded='4 programs: a type parameter named like a module variable')
+def type_parameters(run):
+    """BOUNDED: a PEP 695 type parameter is a variable of its own annotation scope - a read of it is never satisfied by the module-level
+    binding of the same name.  Not counted as proved."""
+    def go(path):
+        for label, text, line in PEP695:
+            try:
+                compile(text, '<c05>', 'exec')
+            except SyntaxError:
+                continue
+            got = supp_view(text).get(line, 'missing')
+            ok = got != 'missing' and (got is None or all(d[0] != 1 for d in got))
+            if not ok:
+                core.RUN.concretise = lambda model, ob, text=text, line=line: {'input': text, 'script': REPLAY % {
+                    'repo': core.REPO, 'text': text, 'line': line,
+                    'verdict': 'REPRODUCED: the read of the type parameter x is resolved to the module-level x = 0 of line 1'}}
+            prove('type-parameter:%s' % label, ok, clause='a read of a type parameter does not resolve to the module binding of the same name '
+                  '[supp bindings %r]\n%s' % (got, text), path=path)
+            core.RUN.concretise = None
+    core.explore(lambda: None, lambda p, out: go(p))
